@@ -44,7 +44,12 @@ func (u *Upsert) Encode(c *proto.PacketContext, wr io.Writer) error {
 		if err := util.WriteUUID(wr, entry.ProfileID); err != nil {
 			return err
 		}
-		for _, action := range u.ActionSet {
+		// The per-entry payloads follow the order of the action bit set (the
+		// protocol's enum order), not the order the caller listed the actions in.
+		for _, action := range UpsertActions {
+			if !ContainsAction(u.ActionSet, action) {
+				continue
+			}
 			if err := action.Encode(c, wr, entry); err != nil {
 				return err
 			}
